@@ -182,7 +182,8 @@ let value_case (id : string) (v : value) : unit =
   let js = to_json fmt v in
   let parsed = json_parse js in
   let pstr_s = (match parsed with Some t -> tree_string t | None -> "ERR") in
-  let un = show_outcome (unjson pf js) in
+  (* unjson pf js = of_tree pf of the parsed tree (Model.Json.unjson), computed from the one parse *)
+  let un = show_outcome (match parsed with Some t -> of_tree pf t | None -> Crash) in
   let flags = String.concat "," (List.filter (fun s -> s <> "") [
       (if wf fmt v then "wf" else "");
       (if data fmt v then "data" else "");
@@ -190,10 +191,12 @@ let value_case (id : string) (v : value) : unit =
       (if sym_keys v then "" else "strkeys");
       (if dup_names v then "dupnames" else "")]) in
   (* the msgpack route, byte for byte: SexpToMsgpack = to_json, JsonToGo, GoToMsgpack; MsgpackToGo, GoToSexp *)
-  let mp = msgpack_bytes fmt pf v in
+  (* msgpack_bytes / unjson_go of Model.Msgpack, composed here from the one parse *)
+  let gt = (match parsed with Some t -> go_of_tree pf t | None -> None) in
+  let mp = (match gt with Some g -> Some (mp_bytes g) | None -> None) in
   let mp_s = (match mp with Some b -> hex_of_bytes b | None -> "ERR") in
   let unmp = (match mp with Some b -> show_outcome (unmsgpack_bytes b) | None -> "CRASH") in
-  let ungo = show_outcome (unjson_go pf js) in
+  let ungo = show_outcome (match gt with Some g -> sexp_of_go g | None -> Crash) in
   let gspec = gtree_of fmt pf v in
   let gok = (match gspec with Some g -> gt_ok g | None -> false) in
   let flags = if gok then flags ^ ",gtok" else flags in
